@@ -445,6 +445,7 @@ def judge_driver(plan, res):
 
   if not res["tests_restored"]:
     raise core.HarnessError("random_test_suite.TESTS not restored")
+  f9_ops = set()
   for i, (op, ev) in enumerate(zip(plan["ops"], res["events"])):
     st["ops"][op["op"]] = st["ops"].get(op["op"], 0) + 1
     if op["op"] == "teststructure":
@@ -543,12 +544,17 @@ def judge_driver(plan, res):
           break
         runs[j] = 1
         models[j].run(result)
+    if f9_hit:
+      f9_ops.add(i)
     if crashed:
       probe("test_fault_fired")
       if "exc" not in ev or "simulated failure inside" not in ev["exc"]:
+        # after an F9 divergence the real loop may have stopped before the
+        # faulted run was ever reached
         viol.append(_v("test_fault_swallowed", i, op["op"],
                        "a statistical test raised RuntimeError but %s "
-                       "returned %r" % (op["op"], ev.get("ret"))))
+                       "returned %r" % (op["op"], ev.get("ret")),
+                       known=F9 if f9_hit else None))
       continue
     if ambiguous:
       st["ties"] += 1
@@ -556,6 +562,7 @@ def judge_driver(plan, res):
       continue
     kn = F9 if f9_hit else None
     if f9_hit:
+      f9_ops.add(i)
       probe("stale_undecided_subtest_absent_from_a_run")
     if faulted:
       st["source_faults_fired"] += 1
@@ -625,6 +632,11 @@ def judge_driver(plan, res):
     st["trajectories"].add(repr([(j, runs[j], sorted(
         (k, tuple(sorted(v))) for k, v in models[j].states.items()))
                                  for j in active]))
+  # once the real loop and the model have diverged through F9 inside an
+  # entry-point call, nothing later in that call can be attributed elsewhere
+  for v in viol:
+    if v["step"] in f9_ops and not v.get("known"):
+      v["known"] = F9
   st["trajectories"] = sorted(st["trajectories"])
   return viol, st
 
